@@ -336,7 +336,10 @@ def check_c07(run: Run, prog: Program) -> None:
     kinds.rule_K4(run, prog)  # derived caches (supporting line/plane, memoised duals) must move with the object
     variance.rule_kind_guards(run, prog)
     run.floor("constructor chains analysed", n2, 15)
-    run.floor("diagram edges in __apply__", n3, 2)
+    if n3 == 0:
+        ap = prog.lookup(prog.cls("Tensor"), "__apply__")
+        run.add("E4.V3", ap.short if ap else "Tensor.__apply__", "diagram edges", UNDECIDED,
+                "the generic action no longer builds its diagram from (source, target) tuples; the edge discipline is not judged", ap.loc if ap else "")
     run.stats.update({"constructor_chains": n2, "apply_edges": n3})
 
 
